@@ -812,9 +812,13 @@ class WcSplit(Generic[AnyStr]):
         """Handle character group."""
 
         c = next(i)
-        if c == '!':
+        if c in ('!', '^'):
             c = next(i)
-        if c in ('^', '-', '['):
+        if c == '[':
+            # A POSIX character class (`[:alpha:]`) is one member: its `]` does not end the sequence
+            i.match(RE_POSIX)
+            c = next(i)
+        elif c in ('-', ']'):
             c = next(i)
 
         try:
@@ -825,6 +829,8 @@ class WcSplit(Generic[AnyStr]):
                 elif c == '/':
                     if self.pathname:
                         raise StopIteration
+                elif c == '[':
+                    i.match(RE_POSIX)
                 c = next(i)
         except PathNameException as e:
             raise StopIteration from e
